@@ -80,6 +80,9 @@ theorem cws_sendStored (c : C) : CWS c (sendStored c) := by
     have := (sendStoredLoop_count_none (resetCount c) c.s.store (by simpa using hm')).2
     simpa using this
 
+theorem cws_resendStored (c : C) : CWS c (resendStored c) :=
+  resendStored_ind (Q := fun x => CWS c x) c (cws_sendStored c) (fun h => h.trans (cws_sendPostProcess _))
+
 theorem cws_psV3Connect (c : C) (p : Pkt) (h : NotPub p) : CWS c (psV3Connect c p) := by
   unfold psV3Connect
   split
@@ -186,9 +189,9 @@ theorem cws_prV3Connack (c : C) (x : Except Nat Pkt) : CWS c (prV3Connack c x) :
     | ok p =>
       let c0 : C := { c with s := { c.s with status := .connected } }
       have h0 : CWS c c0 := CWS.upd _ (CWS.refl c) (Or.inl rfl) rfl
-      let c1 : C := if p.rc = some 0 then (if p.sp then sendStored c0 else clearStoreRelated c0) else c
+      let c1 : C := if p.rc = some 0 then (if p.sp then resendStored c0 else clearStoreRelated c0) else c
       have h1 : CWS c c1 :=
-        CWS.ite (CWS.ite (CWS.trans h0 (cws_sendStored c0)) (CWS.trans h0 (cws_clearStoreRelated c0)))
+        CWS.ite (CWS.ite (CWS.trans h0 (cws_resendStored c0)) (CWS.trans h0 (cws_clearStoreRelated c0)))
           (CWS.refl c)
       exact CWS.trans h1 (cws_push_other _ _ rfl)
 
@@ -203,9 +206,9 @@ theorem cws_prV5Connack (c : C) (x : Except Nat Pkt) : CWS c (prV5Connack c x) :
       have h0 : CWS c c0 := CWS.upd _ (CWS.refl c) (Or.inl rfl) rfl
       let c1 := propsFold connackRecvProp c0 p.props
       have h1 : CWS c c1 := CWS.trans h0 (cws_propsFold _ cws_connackRecvProp _ _)
-      let c2 : C := if p.rc = some 0 then (if p.sp then sendStored c1 else clearStoreRelated c1) else c
+      let c2 : C := if p.rc = some 0 then (if p.sp then resendStored c1 else clearStoreRelated c1) else c
       have h2 : CWS c c2 :=
-        CWS.ite (CWS.ite (CWS.trans h1 (cws_sendStored c1)) (CWS.trans h1 (cws_clearStoreRelated c1)))
+        CWS.ite (CWS.ite (CWS.trans h1 (cws_resendStored c1)) (CWS.trans h1 (cws_clearStoreRelated c1)))
           (CWS.refl c)
       exact CWS.trans h2 (cws_push_other _ _ rfl)
 
